@@ -6,6 +6,36 @@
    continues with Eff(S, ev), so that one defect does not hide the rest of the log. *)
 EXTENDS Linearity, TLC, Json, IOUtils
 
+RL == INSTANCE RecordLabels WITH LabelBug <- "none"
+
+(* Scope (binding clarification of the extension round).  The statement of C05 names "the generic
+   algorithms and containers (algorithm::map/fold/map_concat/..., container::join/pop_back/
+   get_or_insert, optional/either/variant/record/tuple/array combinators, grid map/apply/resize, tree
+   and options/parse constructors)".  The RESULTS of running an options / parse parser are not
+   constructors and not combinators of those containers: histories of the operations below are judged
+   like all others, but a disagreement is tagged OBSERVED-ONLY and reported as an observation, never
+   as a violation.  The functional contract of the record operations ("labels" events: which label ends
+   up where) is likewise outside the statement (it speaks about conservation, not placement). *)
+ObservedOnlyOps == {"options::flag::parse", "options::option::parse", "options::many::parse",
+                    "options::apply::parse", "options::sum::parse",
+                    "parse::repetition", "parse::repetition_plus", "parse::sequence", "parse::sequence3",
+                    "parse::sequence+repetition", "parse::optional", "parse::alternative"}
+
+\* "labels" event: arg = per argument the list of [l, obj] captured before the call, res = the list
+\* of [l, obj] of the result record.  Tokens: of the arguments as they were at begin, of the result now.
+PosIn(seq, x) == CHOOSE k \in DOMAIN seq : seq[k] = x
+LabelWhy(St, ev) ==
+  IF ~RL!HasContract(St.op) THEN {"HARNESS-labels-for-unknown-operation"}
+  ELSE IF \/ \E i \in DOMAIN ev.arg : \E k \in DOMAIN ev.arg[i] : ev.arg[i][k].obj \notin Range(St.args[i].objs)
+          \/ \E k \in DOMAIN ev.res : ~Known(St, ev.res[k].obj)
+  THEN {"HARNESS-unknown-object"}
+  ELSE LET A == [i \in DOMAIN ev.arg |->
+                   RL!AsRec([k \in DOMAIN ev.arg[i] |->
+                               [l |-> ev.arg[i][k].l,
+                                tok |-> St.args[i].toks[PosIn(St.args[i].objs, ev.arg[i][k].obj)]]])]
+           Res == RL!AsRec([k \in DOMAIN ev.res |-> [l |-> ev.res[k].l, tok |-> St.objs[ev.res[k].obj].tok]])
+       IN IF Res = RL!Contract(St.op, A) THEN {} ELSE {"label-mapping"}
+
 VARIABLES l, S, bad, nbad
 tvars == <<l, S, bad, nbad>>
 
@@ -17,8 +47,16 @@ TNext ==
   /\ l <= Len(T)
   /\ l' = l + 1
   /\ LET ev == T[l]
-         w == Why(S, ev)
-     IN /\ S' = Eff(S, ev)
+         opname == IF ev.e \in {"reset", "begin"} THEN ev.op ELSE S.op
+         w0 == IF ev.e = "labels" THEN LabelWhy(S, ev) ELSE Why(S, ev)
+         harness == \E r \in w0 : r \in {"HARNESS-unknown-object", "HARNESS-id-reuse", "HARNESS-PRECONDITION",
+                                         "HARNESS-unknown-event", "HARNESS-begin-twice", "HARNESS-end-without-begin",
+                                         "HARNESS-end-inside-continuation", "HARNESS-token-mismatch",
+                                         "HARNESS-argument-count", "HARNESS-cb-exit-without-enter",
+                                         "HARNESS-labels-for-unknown-operation"}
+         w == IF w0 # {} /\ ~harness /\ (ev.e = "labels" \/ opname \in ObservedOnlyOps)
+              THEN w0 \cup {"OBSERVED-ONLY"} ELSE w0
+     IN /\ S' = IF ev.e = "labels" THEN S ELSE Eff(S, ev)
         /\ IF w = {} THEN UNCHANGED <<bad, nbad>>
            ELSE /\ nbad' = nbad + 1
                 /\ bad' = IF nbad < 300
